@@ -14,7 +14,15 @@ LEVEL.update({
 LEVEL.update({
  "C06": ("The filter is decided structurally on every path of the validator: the six request/response conditions gate `true`; a reply is returned only behind that gate; every record admitted from a reply section is control-dependent on a test of its own owner; the CNAME admit-map is filled only by the chain walk and targets must agree; NS hosts/match name only for strictly closer ancestors; glue only for selected hosts and only from the permitted sections; only fields of the validator's result reach the cache. What an adversarial reply achieves beyond these gates is declined.", "3/C06"),
 })
+LEVEL.update({
+ "C01": ("On every path of resolve_local the cache is read only after the selected zone was found non-authoritative, a non-authoritative hit reaches the cache only for ANY/empty answers, prioritising_merge keeps the local side at all six call sites, the zone is chosen longest-suffix-first, a Done local result short-circuits every upstream call, and NXDOMAIN/AA provenance is confined to the authoritative arms. Equality of answers with an oracle is declined.", "3/C01"),
+ "C08": ("Termination mechanisms are decided structurally: the only entry to the timeout-less resolvers is through a constant <=60 s tokio timeout; the set of functions that can await network I/O without a timeout is exactly the six transport helpers and each is awaited under a constant <=5 s timeout; the limit/duplicate guards dominate every re-entrant call; push/pop is a balanced {0,1} typestate; Context's predicates are len==capacity / contains with capacity RECURSION_LIMIT; every resolver loop has a progress step; the resolver never fabricates a ResourceRecord. Wall-clock behaviour is declined.", "3/C08"),
+ "C10": ("Chain order is decided at all concatenation sites (chain so far is the receiver, nested resolution appended), follow-up questions keep qtype/qclass and take the alias target, the shared cluster guards and push/pop typestate bound alias loops, follow_cnames returns None on a revisit, aliases are suppressed for CNAME/ANY questions. All alias graphs over all sources are declined.", "3/C10"),
+})
 TECH = {
+ "C01": "custom MIR rules: CUT-REACH between zone selection and cache reads, argument-role ORIGIN at merge sites, who-constructs provenance",
+ "C08": "custom MIR rules: who-calls, least-fixpoint of un-timed I/O over the call graph, guard dominance, push/pop typestate dataflow, loop progress (cycle breaking)",
+ "C10": "custom MIR rules: ORIGIN classification of append operands, typestate, guard dominance",
  "C06": "custom MIR rules: CUT-REACH guard analysis keyed on the admitted record's own access path, arm tables per reply section, who-constructs, ORIGIN of cache-insert arguments",
  "C18": "custom MIR dataflow rules: arm-table extraction, ORIGIN of call arguments across await points, who-calls/who-constructs",
  "C19": "custom MIR rules: who-calls on the lock API, guard dominance, guard-liveness vs yield points (typestate over the CFG), must-pass-through on error arms",
